@@ -316,6 +316,7 @@ func init() {
 		ID:    "C19",
 		Level: "exploration",
 		Rule: "seeded cluster runs (7 real nodes) whose history is injected with validly certified snapshots at adversarial timestamps on 1-3 chains: start+gap-1/+gap/+gap+1, before the start keeping or breaking the span, end-gap+1, equal timestamps, re-used transactions, next-day, random inside, forced round closures; 30% of runs start seconds before a day boundary; deliveries duplicated/reordered; every stored and live round is checked after each write and in a final sweep; candidates the rules forbid must be stored nowhere; " +
+			"rounds opened right after midnight get candidates stamped in the last instants of the previous day; " +
 			"non-trivial = at least one forbidden candidate and two accepted snapshots; distinct = canonical-log digests",
 		Components: clusterComponents,
 		Assume:     clusterAssume,
